@@ -206,6 +206,45 @@ def native(kind, payload, profile='dev', timeout=120):
 
 # ---------------------------------------------------------------------------
 
+def run_kani(harnesses, timeout=900):
+    """engine B: cargo kani on the external crate /verif/kani (path dep on /repo).
+    -> {harness: 'SUCCESSFUL' | 'FAILED' | 'ERROR'} and the wall time"""
+    import re
+    t0 = time.time()
+    env = dict(os.environ)
+    env.update({'RUSTC_WRAPPER': os.path.join(VERIF, 'tools', 'rustc-wrap.sh'), 'CARGO_NET_OFFLINE': 'true'})
+    crate = os.path.join(VERIF, 'kani')
+    lockf = os.path.join(crate, 'Cargo.lock')
+    if not os.path.exists(lockf):
+        with open(lockf, 'w') as f:
+            f.write(open(os.path.join(REPO, 'Cargo.lock')).read())
+    args = ['cargo', 'kani', '--target-dir', os.path.join(CACHE, 'kani-target'), '--output-format', 'terse']
+    for hname in harnesses:
+        args += ['--harness', hname]
+    import fcntl
+    os.makedirs(os.path.join(CACHE, 'kani-target'), exist_ok=True)
+    with open(os.path.join(CACHE, 'kani-target', 'run.lock'), 'w') as lf:
+        fcntl.flock(lf, fcntl.LOCK_EX)
+        try:
+            p = subprocess.run(args, cwd=crate, env=env, stdout=subprocess.PIPE, stderr=subprocess.STDOUT, timeout=timeout)
+            out = p.stdout.decode('utf-8', 'replace')
+        except subprocess.TimeoutExpired:
+            return {h: 'ERROR' for h in harnesses}, time.time() - t0, 'timeout'
+    res = {}
+    cur = None
+    for line in out.splitlines():
+        m = re.match(r'Checking harness (?:\w+::)*(\w+)\.\.\.', line.strip())
+        if m:
+            cur = m.group(1)
+        m = re.match(r'VERIFICATION:- (\w+)', line.strip())
+        if m and cur:
+            res[cur] = m.group(1)
+            cur = None
+    for hname in harnesses:
+        res.setdefault(hname, 'ERROR')
+    return res, time.time() - t0, out[-1500:]
+
+
 def load_known(pid):
     out = []
     p = os.path.join(VERIF, 'known_findings.jsonl')
@@ -268,16 +307,28 @@ def main(argv=None):
     rnd.shuffle(tasks)
     results = []
     ctx = mp.get_context('fork')
+    budget = float(os.environ.get('VERIF_BUDGET_S', '0') or 0) or (900.0 if tier == 'quick' else 6 * 3600.0)
+    deadline = t0 + budget
+    timed_out = False
     with ctx.Pool(min(workers, max(1, len(tasks))), initializer=_worker_init, initargs=(mir_path, modname, tier, seed)) as pool:
-        for r in pool.imap_unordered(_run_task, tasks, chunksize=1):
+        it = pool.imap_unordered(_run_task, tasks, chunksize=1)
+        while len(results) < len(tasks):
+            try:
+                r = it.next(timeout=max(1.0, deadline - time.time()))
+            except mp.TimeoutError:
+                timed_out = True
+                pool.terminate()
+                break
+            except StopIteration:
+                break
             results.append(r)
             if os.environ.get('VERIF_VERBOSE'):
                 print('  [%6.1fs] %s paths=%d obl=%d/%d q=%d %.1fs %s' % (time.time() - t0, json.dumps(r['task'])[:150], r['paths'], r['discharged'],
                       r['obligations'], r['queries'], r['wall_s'], ('ERR ' + r['error'][:300]) if r['error'] else ''), file=sys.stderr, flush=True)
-    return finish(pid, mod, tier, seed, results, t0, th, mir_s, tasks)
+    return finish(pid, mod, tier, seed, results, t0, th, mir_s, tasks, timed_out)
 
 
-def finish(pid, mod, tier, seed, results, t0, th, mir_s, tasks):
+def finish(pid, mod, tier, seed, results, t0, th, mir_s, tasks, timed_out=False):
     errors = [r for r in results if r['error']]
     vacuous = [r for r in results if not r['error'] and r['reached'] == 0]
     agg = {k: sum(r[k] for r in results) for k in ('paths', 'steps', 'queries', 'solver_s', 'obligations', 'discharged')}
@@ -346,10 +397,24 @@ def finish(pid, mod, tier, seed, results, t0, th, mir_s, tasks):
         rep = (key[1] is not None and key[1] in known_seen) or any(x[0] in vs for x in reproduced_new)
         if not rep:
             inconclusive.append('counterexample for %s does not reproduce natively (model/stub wrong?)' % (key,))
+    if timed_out:
+        inconclusive.append('time budget exceeded: %d of %d shapes were not finished (their inputs are not covered by this run)' % (len(tasks) - len(results), len(tasks)))
     for r in errors:
         inconclusive.append('task %s: %s' % (r['task'], r['error'][:600]))
     for r in vacuous:
         inconclusive.append('task %s reached no obligation (vacuous)' % (r['task'],))
+    kani_info = None
+    if getattr(mod, 'KANI', None):
+        kres, ksecs, ktail = run_kani(mod.KANI)
+        kani_info = {'harnesses': kres, 'wall_s': round(ksecs, 1)}
+        bad = [k for k, v in kres.items() if v != 'SUCCESSFUL']
+        for k in bad:
+            if kres[k] == 'FAILED' and not reproduced_new and not known_seen:
+                inconclusive.append('engine B (Kani) harness %s FAILED but engine A reported no violation: engines disagree' % k)
+            elif kres[k] == 'FAILED':
+                lines.append('  engine B (Kani) harness %s also fails' % k)
+            else:
+                inconclusive.append('engine B (Kani) harness %s did not complete: %s' % (k, ktail[-300:]))
     if hasattr(mod, 'extra_checks'):
         try:
             ex = mod.extra_checks(tier, seed, native)
@@ -384,7 +449,8 @@ def finish(pid, mod, tier, seed, results, t0, th, mir_s, tasks):
             'queries': int(agg['queries']), 'solver_s': round(agg['solver_s'], 2),
             'functions_encoded': functions, 'stubs': sorted(stubs),
             'bounds': getattr(mod, 'BOUNDS', {}).get(tier, ''), 'outside_bounds': getattr(mod, 'OUTSIDE', ''),
-            'engines': ['mirsym (MIR symbolic execution, z3 %s)' % _z3ver()],
+            'engines': ['mirsym (MIR symbolic execution, z3 %s)' % _z3ver()] + (['kani/cbmc (external harness crate)'] if kani_info else []),
+            'kani': kani_info,
             'mir_tree_hash': th, 'mir_dump_s': round(mir_s, 1),
             'known_findings_seen': sorted(known_seen), 'counterexamples_replayed': replayed,
             'counterexamples_not_reproduced': len(mismatches),
